@@ -1005,16 +1005,19 @@ class Steward():
         data['version'] = "HTTP/{0}.{1}".format(*self.requestant.version)
         data['method'] = self.requestant.method
 
-        pathSplits = urlsplit(unquote(self.requestant.url))
-        path = pathSplits.path
+        # split first (the requestant has already validated this url) then unquote
+        # the parts: unquoting first lets escaped delimiters such as %5B change how
+        # the url splits and can make urlsplit raise
+        pathSplits = urlsplit(self.requestant.url)
+        path = unquote(pathSplits.path)
         data['path'] = path
 
-        query = pathSplits.query
+        query = unquote(pathSplits.query)
         qargs = dict()
         qargs, query = httping.updateQargsQuery(qargs, query)
         data['qargs'] = qargs
 
-        fragment = pathSplits.fragment
+        fragment = unquote(pathSplits.fragment)
         data['fragment'] = fragment
 
         data['headers'] = list(self.requestant.headers.items())  # copy.copy(self.requestant.headers)  # make copy
